@@ -6,35 +6,110 @@ theorem mCommit_status (s : State) (r b : String) (a : Accepted) : (mCommit s r 
 
 /-- a refused push (anything but 201) leaves the state as it was, except that the addressed
     repository entry exists afterwards (an empty entry if it did not exist) -/
-theorem mPut_refused_unchanged (s : State) (r ref ct qd b : String)
-    (h : (mPut s r ref ct qd b).2.status ≠ 201) :
-    (mPut s r ref ct qd b).1 = s.setRepo (s.repo r) := by
+theorem mPut_refused_unchanged (s : State) (r ref ct qd b : String) (lk : Bool)
+    (h : (mPut s r ref ct qd b lk).2.status ≠ 201) :
+    (mPut s r ref ct qd b lk).1 = s.setRepo (s.repo r) := by
   unfold mPut at h ⊢
   simp only [] at h ⊢
-  cases hv : mValidate (s.setRepo (s.repo r)) r ref ct qd b with
+  cases hv : mValidate (s.setRepo (s.repo r)) r ref ct qd b lk with
   | error e => rfl
   | ok a =>
     rw [hv] at h
     exact absurd (mCommit_status _ r b a) h
 
+/-- every refusal of a check sequence carries status 400 or 413 -/
+def All4xx {α : Type} (x : Except Resp α) : Prop := ∀ e, x = .error e → (e.status = 400 ∨ e.status = 413)
+
+theorem all4xx_pure {α : Type} (a : α) : All4xx (pure a : Except Resp α) := by
+  intro e h; cases h
+theorem all4xx_ok {α : Type} (a : α) : All4xx (Except.ok a : Except Resp α) := by
+  intro e h; cases h
+theorem all4xx_refuse400 {α : Type} (c : String) : All4xx (refuse 400 c : Except Resp α) := by
+  intro e h; unfold refuse at h; cases h; simp
+theorem all4xx_refuse413 {α : Type} (c : String) : All4xx (refuse 413 c : Except Resp α) := by
+  intro e h; unfold refuse at h; cases h; simp
+theorem all4xx_bind {α β : Type} (x : Except Resp α) (f : α → Except Resp β) (hx : All4xx x) (hf : ∀ a, All4xx (f a)) :
+    All4xx (x >>= f) := by
+  intro e h
+  cases x with
+  | error e' => simp [bind, Except.bind] at h; subst h; exact hx e' rfl
+  | ok a => simp [bind, Except.bind] at h; exact hf a e h
+theorem all4xx_ite {α : Type} (c : Prop) [Decidable c] (x y : Except Resp α) (hx : All4xx x) (hy : All4xx y) :
+    All4xx (if c then x else y) := by
+  split <;> assumption
+
+theorem checkCt_4xx (ct : String) : All4xx (checkCt ct) := by
+  unfold checkCt; split
+  · exact all4xx_refuse400 _
+  · exact all4xx_pure _
+theorem checkLen_4xx (limit len : Nat) (a : Bool) : All4xx (checkLen limit len a) := by
+  unfold checkLen; split
+  · exact all4xx_refuse413 _
+  · exact all4xx_pure _
+theorem parseQd_4xx (qd : String) : All4xx (parseQd qd) := by
+  unfold parseQd; split
+  · exact all4xx_pure _
+  · split
+    · exact all4xx_pure _
+    · exact all4xx_refuse400 _
+theorem parseRef_4xx (ref : String) (q : Option Dig) : All4xx (parseRef ref q) := by
+  unfold parseRef; split
+  · exact all4xx_pure _
+  · split
+    · exact all4xx_pure _
+    · exact all4xx_refuse400 _
+theorem checkDigest_4xx (e : Option Dig) (d : Dig) : All4xx (checkDigest e d) := by
+  unfold checkDigest; split
+  · exact all4xx_refuse400 _
+  · exact all4xx_pure _
+theorem validateImage_4xx (ro : Bool) (rp : Repo) (b : Body) (mt tag : String) (d : Dig) : All4xx (validateImage ro rp b mt tag d) := by
+  unfold validateImage; split
+  · exact all4xx_refuse400 _
+  · split
+    · exact all4xx_refuse400 _
+    · split
+      · exact all4xx_refuse400 _
+      · exact all4xx_pure _
+theorem validateIndex_4xx (ro : Bool) (rp : Repo) (b : Body) (mt tag : String) (d : Dig) : All4xx (validateIndex ro rp b mt tag d) := by
+  unfold validateIndex; split
+  · exact all4xx_refuse400 _
+  · split
+    · exact all4xx_refuse400 _
+    · split
+      · exact all4xx_refuse400 _
+      · exact all4xx_pure _
+theorem validateBody_4xx (ro : Bool) (rp : Repo) (b : Body) (mt tag : String) (d : Dig) : All4xx (validateBody ro rp b mt tag d) := by
+  unfold validateBody; split
+  · exact validateImage_4xx _ _ _ _ _ _
+  · split
+    · exact validateIndex_4xx _ _ _ _ _ _
+    · exact all4xx_refuse400 _
+
+/-- every refusal of the validation carries a 4xx status -/
+theorem mValidate_all4xx (s : State) (r ref ct qd b : String) (lk : Bool) : All4xx (mValidate s r ref ct qd b lk) := by
+  unfold mValidate
+  apply all4xx_bind _ _ (checkCt_4xx _); intro _
+  apply all4xx_bind _ _ (checkLen_4xx _ _ _); intro _
+  apply all4xx_bind _ _ (parseQd_4xx _); intro _
+  apply all4xx_bind _ _ (parseRef_4xx _ _); intro _
+  apply all4xx_bind _ _ (checkLen_4xx _ _ _); intro _
+  apply all4xx_bind _ _ (checkDigest_4xx _ _); intro _
+  exact validateBody_4xx _ _ _ _ _ _
+
+theorem mValidate_refusal_4xx (s : State) (r ref ct qd b : String) (lk : Bool) (e : Resp)
+    (hv : mValidate s r ref ct qd b lk = .error e) : e.status = 400 ∨ e.status = 413 :=
+  mValidate_all4xx s r ref ct qd b lk e hv
+
 /-- and an acknowledged push went through every check -/
-theorem mPut_ack_validated (s : State) (r ref ct qd b : String)
-    (h : (mPut s r ref ct qd b).2.status = 201) :
-    ∃ a, mValidate (s.setRepo (s.repo r)) r ref ct qd b = .ok a := by
+theorem mPut_ack_validated (s : State) (r ref ct qd b : String) (lk : Bool)
+    (h : (mPut s r ref ct qd b lk).2.status = 201) :
+    ∃ a, mValidate (s.setRepo (s.repo r)) r ref ct qd b lk = .ok a := by
   unfold mPut at h
   simp only [] at h
-  cases hv : mValidate (s.setRepo (s.repo r)) r ref ct qd b with
+  cases hv : mValidate (s.setRepo (s.repo r)) r ref ct qd b lk with
   | ok a => exact ⟨a, rfl⟩
   | error e =>
     rw [hv] at h
-    -- every refusal carries a 4xx status: show it by running the checks
     exfalso
-    have : e.status = 400 := by
-      unfold mValidate refuse at hv
-      simp only [bind, Except.bind, pure, Except.pure] at hv
-      repeat' split at hv
-      all_goals first
-        | (cases hv; rfl)
-        | (simp at hv)
-    simp [this] at h
+    rcases mValidate_refusal_4xx _ r ref ct qd b lk e hv with h4 | h4 <;> simp [h4] at h
 end Upd
